@@ -38,8 +38,8 @@ ASSUMPTIONS = [
     "append(image, offset) documents the stored time of the appended slice as its own time plus offset",
 ]
 FLOORS = {
-    "quick": {"block_data": 2500, "placement": 2500, "time_stamps": 1000, "physical_equals_voxel_box": 300, "stack_roundtrip": 300, "sibling_extractions": 300, "roi_object_reused": 100},
-    "thorough": {"block_data": 30000, "placement": 30000, "time_stamps": 12000, "physical_equals_voxel_box": 3000, "stack_roundtrip": 3000, "sibling_extractions": 3000, "roi_object_reused": 1000},
+    "quick": {"strided_time_intervals": 40, "stack_inputs_untouched": 300, "block_data": 2500, "placement": 2500, "time_stamps": 1000, "physical_equals_voxel_box": 300, "stack_roundtrip": 300, "sibling_extractions": 300, "roi_object_reused": 100},
+    "thorough": {"strided_time_intervals": 400, "stack_inputs_untouched": 3000, "block_data": 30000, "placement": 30000, "time_stamps": 12000, "physical_equals_voxel_box": 3000, "stack_roundtrip": 3000, "sibling_extractions": 3000, "roi_object_reused": 1000},
 }
 
 
@@ -285,8 +285,13 @@ def run_shard(spec, R):
                 a, b, cl = gen_range(rng, len(p.times))
                 if cl in ("beyond", "from_end"):
                     cl = "t:" + cl
-                stepd = {"op": op, "slice": [a, b]}
-                call = lambda: cur.time_interval(slice(a, b))
+                # an interval may be strided (every second / third retained time step)
+                st = int(rng.choice([2, 3])) if rng.random() < 0.3 else None
+                stepd = {"op": op, "slice": [a, b] if st is None else [a, b, st]}
+                if st is not None:
+                    cl = cl + ":strided"
+                    R.count("strided_time_intervals")
+                call = lambda: cur.time_interval(slice(a, b, st))
             ops.append(op)
             classes.append(cl)
             case["steps"].append(stepd)
@@ -306,7 +311,7 @@ def run_shard(spec, R):
                 nontrivial = True
                 R.count("time_extractions")
             else:
-                sel = list(range(len(p.times)))[slice(a, b)]
+                sel = list(range(len(p.times)))[slice(a, b, st)]
                 if len(sel) < len(p.times):
                     nontrivial = True
                 p = Prov(root_arr, meta, p.offset, [p.times[i] for i in sel], True)
@@ -461,11 +466,37 @@ def run_shard(spec, R):
                             R.check(np.array_equal(slj.img, snap2[j][0]) and slj.date == snap2[j][1], "stack_roundtrip", {**case, "generation": 2, "k0": k0, "j": j, "what": "data/date"})
                             R.check(slj.time == snap2[j][2], "stack_roundtrip_time", {**case, "generation": 2, "how2": how2, "k0": k0, "j": j, "got": slj.time, "expected": snap2[j][2]})
                     R.sig(["series-gen2", dim, payload, time_kind, how2, count, k0], True, cls=f"assembly2/{how2}/{time_kind}")
+        # ---- the assembled series is itself the first entry of a stack, followed by single-time images: the result
+        # holds all slabs in order, and the series that went in still is what it was (data, stamps, slices)
+        if ok and n % 2 == 1:
+            extra = [origs[k].copy() for k in range(int(rng.integers(1, min(3, count) + 1)))]
+            if time_kind == "date":
+                for k, e in enumerate(extra):
+                    e.date = dates[-1] + timedelta(seconds=10 * (k + 1))  # append requires increasing dates
+            esnap = [(e.img.copy(), e.date, e.time) for e in extra]
+            in_snap = (ser.img.copy(), list(ser.date) if isinstance(ser.date, list) else ser.date, list(ser.time) if isinstance(ser.time, list) else ser.time)
+            ok3, big = R.guarded("assemble_series", lambda: darsia.stack([ser] + extra))
+            if ok3:
+                R.check(big.time_num == count + len(extra) and big.img.shape[dim] == count + len(extra), "series_shape", {**case, "what": "stack([series, singles...])"})
+                for j in range(count + len(extra)):
+                    okj, slj = R.guarded("time_slice_of_stack", lambda: big.time_slice(j))
+                    if okj:
+                        e_img, e_date = (snap[j][0], snap[j][1]) if j < count else (esnap[j - count][0], esnap[j - count][1])
+                        R.check(np.array_equal(slj.img, e_img) and slj.date == e_date, "stack_roundtrip", {**case, "what": "stack([series, singles...]) data/date", "j": j})
+                now = (ser.img, list(ser.date) if isinstance(ser.date, list) else ser.date, list(ser.time) if isinstance(ser.time, list) else ser.time)
+                R.check(np.array_equal(now[0], in_snap[0]) and now[1] == in_snap[1] and now[2] == in_snap[2] and ser.time_num == count, "stack_inputs_untouched",
+                        lambda: {**case, "dates_before": len(in_snap[1]) if isinstance(in_snap[1], list) else None, "dates_after": len(now[1]) if isinstance(now[1], list) else None,
+                                 "times_before": in_snap[2], "times_after": now[2]})
+                okl, last = R.guarded("time_slice_of_stack", lambda: ser.time_slice(count - 1))
+                if okl:
+                    R.check(np.array_equal(last.img, snap[count - 1][0]) and last.date == snap[count - 1][1], "stack_inputs_untouched", {**case, "what": "last slice of the series that went in"})
+                for e, k in zip(extra, range(len(extra))):
+                    R.check(np.array_equal(e.img, esnap[k][0]) and e.date == esnap[k][1] and e.time == esnap[k][2], "stack_inputs_untouched", {**case, "what": "single image that went in", "k": k})
 
 
 MANIFEST = {
     "technique": "boundary monitors with a provenance map (shadow state) on subregion/time_slice/time_interval/append/stack; independent block model; ambient C01 coordinate contracts",
     "level_text": "Thousands of random nested extraction programs (up to four steps, any order) on random 2-D/3-D roots of every payload and time kind are executed; after every step the returned image is judged against the untouched root copy through a provenance map: bitwise block content, coordinates of its corner voxels versus the root's at v+offset, voxel size, per-slice dates and times, kind and payload layout, and physical box == voxel box. Series assembled by append/stack from 2-5 images are re-sliced and compared with snapshots of the originals.",
-    "level_note": "Sampled programs and inputs; slice steps other than 1 and empty selections are outside the property; append's offset semantics follows the implementation's documented-in-code reading (own time plus offset).",
+    "level_note": "Sampled programs and inputs; empty selections and negative strides are outside the property (time intervals with strides 2 and 3 are generated); append's offset semantics follows the implementation's documented-in-code reading (own time plus offset).",
     "design_ref": "DESIGN.md section 3, C02",
 }
